@@ -43,7 +43,7 @@ type schedRec struct {
 
 // complete reports the names reachable from root that cannot be loaded from the store (no cache)
 func complete(w *runner.World, storeID int, kind int, rootTok string) (string, bool) {
-	r := w.Roots[atoiS(rootTok)]
+	r := w.GetRoot(atoiS(rootTok))
 	if r == nil {
 		return "no root", false
 	}
@@ -107,7 +107,7 @@ func schedMain(args []string) int {
 				enc.Encode(schedRec{Hist: hid, Index: i, Mode: "control", Problems: []string{"control MakeRoot failed: " + ctl.ErrText}})
 				continue
 			}
-			tr := w.Trees[atoiS(tid)]
+			tr := w.GetTree(atoiS(tid))
 			storeID, kind := tr.StoreID(), tr.Kind()
 			enc.Encode(schedRec{Hist: hid, Index: i, Mode: "control", Writes: len(names), Problems: []string{}})
 			// schedules
